@@ -203,6 +203,27 @@ Proof.
 Qed.
 Print Assumptions c12_code_reachable.
 
+(* a code is not usable beyond its life time *)
+Definition c12_code_expiry_statement : Prop :=
+  forall cfg st secret st' uid cred code,
+  wf (cs_store st) -> split_colon secret = Some (code, cred) ->
+  cstep cfg st (CAuth secret) = (st', CAuthOk uid cred) ->
+  exists e, cget (key_of_cred cred) (cs_store st) = Some e /\ (cs_now st - cc_lifetime cfg <= ce_created e)%Z.
+
+(* FINDING (findings/C12.md, code-outlives-lifetime): expire_in 10 s, right code accepted after 24 s *)
+Theorem c12_code_expiry_refuted : ~ c12_code_expiry_statement.
+Proof. exact code_expiry_refuted. Qed.
+Print Assumptions c12_code_expiry_refuted.
+
+(* with the proposed repair (stale rows expired before the lookup) the statement holds *)
+Theorem c12_code_expiry_fixed :
+  forall cfg st secret st' uid cred code,
+  wf (cs_store st) -> split_colon secret = Some (code, cred) ->
+  cstep_fixed cfg st (CAuth secret) = (st', CAuthOk uid cred) ->
+  exists e, cget (key_of_cred cred) (cs_store st) = Some e /\ (cs_now st - cc_lifetime cfg <= ce_created e)%Z.
+Proof. exact code_expiry_fixed. Qed.
+Print Assumptions c12_code_expiry_fixed.
+
 (* ------------------------------ login / password ------------------------------ *)
 
 Theorem c12_basic_auth_sound :
